@@ -214,6 +214,14 @@ type c18Run struct {
 	early    bool // returned right after the first success was released (all jobs started)
 }
 
+type c18WrapErr struct {
+	name  string
+	inner error
+}
+
+func (e c18WrapErr) Error() string { return e.name }
+func (e c18WrapErr) Unwrap() error { return e.inner }
+
 // c18RunFS drives one real call. `scale` multiplies every waiting budget (1 on the first attempt, 10 on retries).
 func (h *c18Harness) runFS(limit int, outs []c18Out, order []int, ctxKind int, scale int) c18Run {
 	n := len(outs)
@@ -239,6 +247,14 @@ func (h *c18Harness) runFS(limit int, outs []c18Out, order []int, ctxKind int, s
 				return outs[i].val, nil
 			}
 			// a failing job hands back a poisoned value: it must never surface
+			// every third failing job fails the way a job with its own internal timeout does: its error wraps
+			// context.DeadlineExceeded / context.Canceled although the REQUEST context is live.  The message is unchanged.
+			switch (i + n) % 3 {
+			case 1:
+				return 100000 + i, c18WrapErr{outs[i].name, context.DeadlineExceeded}
+			case 2:
+				return 100000 + i, c18WrapErr{outs[i].name, context.Canceled}
+			}
 			return 100000 + i, errors.New(outs[i].name)
 		})
 	}
